@@ -5,7 +5,7 @@
 import os, sys
 sys.path.insert(0, os.path.join(os.environ.get("AIOFTP_REPO", "/repo"), "src"))
 OBLIGATION = 'aioftp.server:Server.dispatcher/set-up::Server.dispatcher/set-up/exit:control-reads-time-out-after-idle_timeout'
-MODEL = {'block_size!0': 1, 'logged_present!13': False, 'restart_offset!10': 0, 'current_directory_done!16': True, 'u_cur_home!265': 'Empty(Seq(String))', 'current_directory_present!15': True, 'socket_timeout!34': '0/1', 'cwd!266': 'Empty(Seq(String))', 'logged_done!14': True, 'idle_timeout!33': '0/1'}
+MODEL = {'socket_timeout!34': '0/1', 'block_size!0': 1, 'current_directory_done!16': True, 'restart_offset!10': 0, 'current_directory_present!15': True, 'u_cur_home!249': 'Empty(Seq(String))', 'logged_present!13': False, 'cwd!250': 'Empty(Seq(String))', 'logged_done!14': True, 'idle_timeout!33': '0/1'}
 SOLVER_NOTE = ''
 
 print("obligation", OBLIGATION, "failed; no concrete failing input could be constructed automatically")
